@@ -143,7 +143,7 @@ Lemma scope_checks : forall p n, In (p, n) C07_scope ->
 Proof.
   intros p n Hin.
   pose proof check_scope_ok as H. unfold check_scope in H.
-  rewrite forallb_forall in H. specialize (H _ Hin). simpl in H.
+  rewrite forallb_forall in H. specialize (H (p, n) Hin). cbv beta iota in H.
   repeat (apply andb_prop in H; destruct H as [H ?]).
   repeat split; try assumption.
   intros ->. assumption.
